@@ -605,6 +605,21 @@ def _escapes(fa, starts, sites, extra_removed, edge_ok, targets, include_start=T
 # R1
 # =================================================================================================
 
+def _index_varies(fa, e, at):
+    """No element of the bulk answer is picked by a fixed position (`answer[0]`): a subscript with a constant index yields
+    the same element in every iteration, not the iteration's own."""
+    for x in ast.walk(e):
+        if isinstance(x, ast.Subscript) and not isinstance(x.slice, ast.Slice):
+            try:
+                atoms = fa.df.deps(x.slice, at)
+            except Exception:
+                return True
+            if atoms and all(a.startswith("const:") or a.startswith("op:") for a in atoms) and "op:elem" not in atoms:
+                if any(d.startswith("call:get_mementos") for d in fa.df.deps(x.value, at)):
+                    return False
+    return True
+
+
 def _r1_batch(ck, R1):
     br = nfa(ck, RL + ".LocalRunnerBackend.batch_run")
     seqs = batch_seqs(br)
@@ -654,7 +669,7 @@ def _r1_batch(ck, R1):
             dr = br.deps(s.result, s.at)
             okr = (home is not None and "bulk" in (home[1].elem_role(seqs, s.result_src, s.at) if s.result_src is not None else None,
                                                    home[1].elem_role(seqs, s.result, s.at))) \
-                or ("op:subscript" in dr and any(d.startswith("call:get_mementos") for d in dr))
+                or ("op:subscript" in dr and any(d.startswith("call:get_mementos") for d in dr) and _index_varies(br, s.result, s.at))
         oki = all(s.parts)
         ck.ob(R1, br.key(s.anchor, "args"), okc and okr and oki, "propagates the stored memento into the calling frame's memento" if okc and okr and oki else
               "batch pre-check propagates the wrong mementos (caller=%s, result=%s)" % (A.norm(s.caller), A.norm(s.result)) if oki else
